@@ -63,6 +63,9 @@ BUILT = {
  "C19": ("exploration", "runtime monitor: relational comparison of result tuples across processes - in-sequence vs fresh-process cold-cache twin vs warm-cache process vs direct CsvPath() vs repeat; labelled same-path-new-bytes sub-scenario",
          "Each generated sequence of 2-6 jobs over files with hostile header cells is run in one process through CsvPaths().csvpath(); every job is re-run first in a fresh process with an empty cache, directly, repeated, and again in a new process on the warm cache; all result tuples (lines, variables, printouts, errors, verdict, counters, headers, line count) must be identical.",
          "fresh-process twin is the reference; time/random functions not generated", "DESIGN.md#c19"),
+ "C20": ("exploration", "runtime monitor: LineEvent hook showing which records each chain member actually read, compared with the predecessor's collected lines / data.csv, the member manifest and the composition of standalone stages; captured reference values compared with what the referenced group's most recent run left; replay of results references",
+         "Generated chains of 2-4 filter members with source-mode preceding on every suffix start, and reference scenarios after 1-3 runs of the referenced group (virtual clock): 'chain == composition of its stages', actual_data_file names the predecessor's data.csv, $name.variables.v[.key] / $name.headers.h[.id] equal the most recent run's values, ':last'/':first' results references replay exactly the referenced data.csv.",
+         "standalone CsvPath runs compose the expected chain; chains whose predecessor collects nothing are not decided", "DESIGN.md#c20"),
 }
 
 def source_commits():
